@@ -22,7 +22,7 @@ def build_replay():
     src = os.path.join(ROOT, "replay")
     work = os.path.join(ROOT, "out", "replay_crate")
     os.makedirs(os.path.join(work, "src"), exist_ok=True)
-    toml = open(os.path.join(src, "Cargo.toml")).read().replace("/repo/rust/candid", os.path.join(weave.REPO, "rust/candid"))
+    toml = open(os.path.join(src, "Cargo.toml")).read().replace("/repo/rust/", os.path.join(weave.REPO, "rust/"))
     open(os.path.join(work, "Cargo.toml"), "w").write(toml)
     for f in ("src/main.rs",):
         open(os.path.join(work, f), "w").write(open(os.path.join(src, f)).read())
@@ -83,3 +83,77 @@ def bignum_encoders(pid):
                               "vectors": len(cmds), "disagreements": len(failures), "labelled": "bounded, NOT proved",
                               "wall_s": round(time.time() - t0, 1)}],
     }
+
+
+# ------------------------------------------------------------------ principal text form (IC interface spec)
+def canon_text(b):
+    import base64
+    import zlib
+    raw = zlib.crc32(b).to_bytes(4, "big") + b
+    t = base64.b32encode(raw).decode().rstrip("=").lower()
+    return "-".join(t[i:i + 5] for i in range(0, len(t), 5))
+
+
+def principal_text(pid):
+    """BOUNDED stand-in for ic_principal from_text / Display (data_encoding + crc32fast + str slicing are
+    outside Verus' reach): every byte string of length <= 1 and a seeded sample of lengths 2..29 is printed and
+    parsed back; every canonical text is also mutated (trailing / leading / moved / doubled dash, upper case,
+    one flipped character, truncation) and the verdict compared with the specification."""
+    t0 = time.time()
+    exe, err = build_replay()
+    if not exe:
+        return {"undecided": [f"bounded stand-in: the real crate does not build: {err}"], "failures": []}
+    rnd = random.Random(int(os.environ.get("VERIF_SEED", "0") or 0))
+    blobs = [b""] + [bytes([i]) for i in range(256)]
+    blobs += [bytes([a, b]) for a in range(0, 256, 5) for b in range(0, 256, 7)]
+    for n in range(2, 30):
+        for _ in range(12):
+            blobs.append(bytes(rnd.getrandbits(8) for _ in range(n)))
+    cmds, exps = [], []
+    for b in blobs:
+        t = canon_text(b)
+        cmds.append("pt " + b.hex()); exps.append("ok " + t)
+        cmds.append("pf " + t); exps.append("ok " + b.hex())
+        cmds.append("pf " + t.upper()); exps.append("ok " + b.hex())
+    for b in blobs[::9]:
+        t = canon_text(b)
+        muts = [t + "-", "-" + t, t.replace("-", "", 1) if "-" in t else t + "a", t.replace("-", "--", 1) if "-" in t else t + "--",
+                t[:-1], t + "a"]
+        if len(t) > 6:
+            muts.append(t[:2] + "-" + t[2:])            # extra dash at a wrong place
+            k = rnd.randrange(len(t))
+            if t[k] != "-":
+                muts.append(t[:k] + ("b" if t[k] != "b" else "c") + t[k + 1:])  # one character changed
+        for m in muts:
+            if m == t or " " in m or not m:
+                continue
+            cmds.append("pf " + m); exps.append("err")
+    for n in (30, 31, 40, 256, 260, 285):
+        cmds.append("ps " + ("00" * n)); exps.append("err")
+    for n in (0, 1, 29):
+        cmds.append("ps " + ("07" * n)); exps.append("ok " + "07" * n)
+    p = subprocess.run([exe], input="\n".join(cmds) + "\n", capture_output=True, text=True, timeout=600)
+    outs = p.stdout.splitlines()
+    failures = []
+    for c, e, o in zip(cmds, exps, outs):
+        o = o.strip()
+        e = e.strip()
+        bad = (not o.startswith("err")) if e == "err" else (o != e)
+        if bad:
+            fn = {"pt": "Display / to_text", "pf": "from_text", "ps": "try_from_slice"}[c[:2]]
+            failures.append({
+                "obligation": f"bounded-standin::Principal::{fn}", "unit": "bounded-standin", "item": fn, "fn": fn,
+                "kind": "bounded-standin", "file": "rust/ic_principal/src/lib.rs", "line": 0, "source_text": "", "clause": None,
+                "verifier_message": f"{fn}: input `{c[3:]}` gave `{o}`, the specification says `{e}`",
+                "witness": {"confirmed": True, "function": f"rust/ic_principal/src/lib.rs::{fn}", "input": c, "expected": e, "got": o,
+                            "replay_cmd": f"echo '{c}' | {exe}   # expected: {e}"}})
+            if len(failures) >= 3:
+                break
+    return {"failures": failures, "undecided": [], "obligations": 0, "discharged": 0, "trusted": [],
+            "cmds": [f"{exe} < vectors (bounded stand-in)"],
+            "backends": ["BOUNDED stand-in (concrete enumeration on the real crate; not a proof)"], "samples": [],
+            "bounded_standins": [{"functions": ["ic_principal Display/to_text", "ic_principal from_text", "try_from_slice (lengths 30..285)"],
+                                  "bound": "all ids of length <= 1, a grid of length-2 ids, 12 seeded random ids per length 2..29; "
+                                           "upper-case spelling of each; 6-8 single edits of every 9th canonical text",
+                                  "vectors": len(cmds), "disagreements": len(failures), "labelled": "bounded, NOT proved",
+                                  "wall_s": round(time.time() - t0, 1)}]}
